@@ -12,9 +12,10 @@ Follows mesa/discrete_space/grid.py (`Grid.__init__`, `pickle_gridcell`, `unpick
 -/
 namespace Mesa.Copy
 
-abbrev ClassId := Nat
-abbrev LayerId := Nat     -- identity of a PropertyLayer object (and of its data array)
-abbrev SpaceId := Nat
+-- identities are plain numbers: ClassId, LayerId (a PropertyLayer object and its data array), SpaceId
+local notation "ClassId" => Nat
+local notation "LayerId" => Nat
+local notation "SpaceId" => Nat
 
 structure CellObj where
   coord : List Int
@@ -91,18 +92,20 @@ def removeLayer (w : World) (sid : SpaceId) (name : String) : Except Err World :
     order); every cell comes back from `unpickle_gridcell` with a class of its own (ids `nextClass`,
     `nextClass+1`, …); `Grid.__setstate__` then takes the class of the first cell as the grid's class,
     re-classes all cells to it and installs one descriptor per copied layer on it. -/
+def copiedSpace (w : World) (sp : SpaceObj) : SpaceObj :=
+  { cellKlass := w.nextClass
+    cells := sp.cells.map fun c => { c with klass := w.nextClass }
+    layers := freshLayers (sp.layers.map (·.1)) w.nextLayer }
+
 def copySpace (w : World) (sid : SpaceId) : Except Err World :=
   match w.spaces sid with
   | none => .error .noSpace
   | some sp =>
-    let ls := freshLayers (sp.layers.map (·.1)) w.nextLayer
-    let k := w.nextClass
-    let sp' : SpaceObj := { cellKlass := k, cells := sp.cells.map fun c => { c with klass := k }, layers := ls }
     .ok { nextClass := w.nextClass + max 1 sp.cells.length
           nextLayer := w.nextLayer + sp.layers.length
           nextSpace := w.nextSpace + 1
-          descr := installAll w.descr k ls
-          spaces := fun i => if i = w.nextSpace then some sp' else w.spaces i }
+          descr := installAll w.descr w.nextClass (copiedSpace w sp).layers
+          spaces := fun i => if i = w.nextSpace then some (copiedSpace w sp) else w.spaces i }
 
 inductive Op where
   | newGrid (coords : List (List Int))
